@@ -268,12 +268,12 @@ func buildRefs(root string, cfgkey string) []any {
 					continue // a child transition inside an abstraction: the enclosing profile is not known here
 				}
 				tg := strings.Trim(x.Target, "\"")
-				recs = append(recs, map[string]any{"ev": "ref", "key": fmt.Sprintf("%s|%s -> %s", fn, x.Mode, tg), "kind": "exec", "child": child, "encl": encl,
+				recs = append(recs, map[string]any{"ev": "ref", "key": fmt.Sprintf("%s|%s -> %s|%s", fn, x.Mode, tg, distOfKey(cfgkey)), "kind": "exec", "child": child, "encl": encl,
 					"target": tg, "parts": strings.Split(tg, "//&"), "pattern": isPattern(tg)})
 			case x.T == "rule" && x.Kind == "change_profile" && strings.Contains(x.Path, "->"):
 				tg := strings.TrimSpace(x.Path[strings.Index(x.Path, "->")+2:])
 				tg = strings.Trim(tg, "\"")
-				recs = append(recs, map[string]any{"ev": "ref", "key": fmt.Sprintf("%s|change_profile -> %s", fn, tg), "kind": "change_profile", "child": false, "encl": "",
+				recs = append(recs, map[string]any{"ev": "ref", "key": fmt.Sprintf("%s|change_profile -> %s|%s", fn, tg, distOfKey(cfgkey)), "kind": "change_profile", "child": false, "encl": "",
 					"target": tg, "parts": strings.Split(tg, "//&"), "pattern": isPattern(tg)})
 			}
 		}
@@ -455,4 +455,13 @@ func addSiblingProbes(src string) int {
 func dirExists(p string) bool {
 	st, err := os.Stat(p)
 	return err == nil && st.IsDir()
+}
+
+// distOfKey: the distribution of a configuration key ("whonix-abi3-v3.0-complain-n"): a reference can dangle on one
+// distribution and resolve on another, so the distribution is part of what identifies a dangling reference
+func distOfKey(cfgkey string) string {
+	if i := strings.Index(cfgkey, "-abi"); i > 0 {
+		return cfgkey[:i]
+	}
+	return cfgkey
 }
